@@ -47,6 +47,10 @@ NA_REASONS = {
  "C45": "X: the lease is enforced by the external `git push --force-with-lease` process (DESIGN §4).",
  "C46": "H: walk_predecessors over operation history in the op store (DESIGN §4).",
 }
+_B = (" After the proofs, the check also runs the property's executable contracts on the real compiled crates over a stated small scope "
+      "(bounded stand-in for the functions of the mechanism that are not under a Verus contract; reported under coverage.bounded, never counted as proved; "
+      "a failing input found there is reported as a VIOLATION with a replayable input).")
+BOUNDED_NOTE = {p: _B for p in ("C01", "C02", "C03", "C04", "C10", "C12", "C16", "C18", "C19", "C20", "C21", "C30", "C31", "C33", "C44")}
 NOT_BUILT = "contract designed (DESIGN §3) but not discharged on mechanically extracted text in this build; not claimed."
 
 
@@ -71,7 +75,7 @@ def main():
                 "replay_cmd_template": "./check %s --replay {path}" % pid,
                 "engine": "vx+verus",
                 "level_claimed": {"category": "proof", "text": text, "design_ref": "DESIGN.md " + ref},
-                "level_note": note,
+                "level_note": note + BOUNDED_NOTE.get(pid, ""),
                 "technique": "contract-based deductive verification (Verus requires/ensures/invariants on functions extracted mechanically from /repo each run)",
             })
         else:
@@ -82,7 +86,9 @@ def main():
         "hooks": {"guard": "jj_vcs_jj_verif", "enable": "none needed: extraction reads /repo sources; Kani/cex use the public API from external crates (RUSTFLAGS='--cfg jj_vcs_jj_verif' reserved)",
                   "baseline_off_cmd": baseline["cmd"], "source_commits": [], "add_only": True},
         "engines": [{"name": "vx+verus", "path": "/verif/check", "serves_properties": [c["property_id"] for c in checks],
-                     "kind_free_text": "mechanical extractor (syn) + contract weaving + Verus/Z3; canary vacuity guard; baseline of obligations"}],
+                     "kind_free_text": "mechanical extractor (syn) + contract weaving + Verus/Z3; canary vacuity guard; baseline of obligations"},
+                    {"name": "kani", "path": "/verif/kani", "serves_properties": ["C02"], "kind_free_text": "K1 complete loop-free harnesses on the real crate; K2 bounded validations of prelude shims (thorough tier)"},
+                    {"name": "cex", "path": "/verif/cex", "serves_properties": sorted(BOUNDED_NOTE), "kind_free_text": "executable contracts on the real crates: counterexample search/replay and bounded stand-in"}],
         "checks": checks,
         "not_applicable": na,
         "notes": "Exit 2 / `UNDECIDED` lines mean the check could not decide (lost anchor, unsupported construct, rlimit); they are never alarms. See DESIGN.md.",
